@@ -131,18 +131,23 @@ def handle (j : Json) : Option Json := do
       let sv ← getRatList j "sv"
       let dt0 ← getRat j "dt"
       let steps ← getArr j "steps"
-      let rec go (s : Sim) (todo : List Json) (acc : List Json) : Option (List Json) :=
+      let rec go (o : SimObj) (todo : List Json) (acc : List Json) : Option (List Json) :=
         match todo with
         | [] => some acc.reverse
         | st :: rest => do
           let sets ← getArr st "set"
           let sets ← sets.mapM setOf
           let dtArg ← getRat st "dt"
-          let s1 := sets.foldl (fun s (q : Nat × Bool × Rat) => setVar w.M s q.1 q.2.1 q.2.2) s
-          match update w.M (polyRes w.F) (polyRes w.G) soundAffineRoot s1 dtArg with
+          -- optional `reset()` before the set_var calls of this step
+          let o0 := if (getBool st "reset").getD false then applyOp w.M (polyRes w.F) (polyRes w.G) soundAffineRoot o Op.reset else o
+          let o1 := sets.foldl (fun o (q : Nat × Bool × Rat) =>
+            applyOp w.M (polyRes w.F) (polyRes w.G) soundAffineRoot o (Op.setVar q.1 q.2.1 q.2.2)) o0
+          match update w.M (polyRes w.F) (polyRes w.G) soundAffineRoot o1.cur dtArg with
           | .raised s2 => some ((outcomeJ "raise" [("sv", ratsJ s2.sv)]) :: acc).reverse
-          | .returned s2 => go s2 rest (outcomeJ "ok" [("sv", ratsJ s2.sv)] :: acc)
-      let outs ← go { sv, dt := dt0 } steps []
+          | .returned _ =>
+            let o2 := applyOp w.M (polyRes w.F) (polyRes w.G) soundAffineRoot o1 (Op.update dtArg)
+            go o2 rest (outcomeJ "ok" [("sv", ratsJ o2.cur.sv), ("init", ratsJ o2.init)] :: acc)
+      let outs ← go { cur := { sv, dt := dt0 }, init := sv } steps []
       pure (Json.arr outs.toArray)
   | "run" =>
       -- IO loop: `ioInitialize` (initial NLP answered with the given X0) then `ioRun`
